@@ -63,7 +63,7 @@ def model_check(ctx, descs):
     """Exhaustive TLC runs over ALL generated networks at once (run-to-quiescence interleaving):
     safety invariants with action coverage, then liveness (ExecutorEnds, EveryStepEnds) under weak fairness."""
     files = {"MC_DF.tla": dt.constants_module(descs), "MC_DF.cfg": dt.cfg(liveness=False)}
-    r = ctx.tlc("Dataflow", "MC_DF", "MC_DF.cfg", files=files, timeout=2400, workers=8)
+    r = ctx.tlc("Dataflow", "MC_DF", "MC_DF.cfg", files=files, timeout=3000)
     if not r.ok:
         return r
     # vacuity guard: action coverage on a sample of the networks (coverage statistics over the whole batch exhaust the heap)
